@@ -128,6 +128,17 @@ func initSyncExternals() {
 		i.logUndo(func() { ls.writer = false })
 		return true
 	}
+	condWake := func(fr *frame, a []value) value {
+		i := fr.i
+		addr := a[0].(*value)
+		gen := i.counterOf(addr)
+		*gen++
+		i.logUndo(func() { *gen-- })
+		if i.sched != nil && i.sched.enabled && i.path != nil {
+			i.sched.wgRelease(addr) // not a schedule point of its own: L is held, nobody else can move
+		}
+		return nil
+	}
 	m := map[string]externalFn{
 		"(*sync.Mutex).Lock":      lock,
 		"(*sync.Mutex).Unlock":    unlock,
@@ -137,6 +148,27 @@ func initSyncExternals() {
 		"(*sync.RWMutex).RLock":   rlock,
 		"(*sync.RWMutex).RUnlock": runlock,
 		"(*sync.RWMutex).TryLock": trylock,
+		// sync.Cond at contract level: Wait unlocks L, parks until some Signal/Broadcast happens after
+		// the call began, then re-locks L (Signal is modelled as Broadcast: spurious wake-ups are
+		// allowed by the contract, callers re-check their condition in a loop). Signal/Broadcast
+		// happen-before the return of the Wait they wake.
+		"(*sync.Cond).Wait": func(fr *frame, a []value) value {
+			i := fr.i
+			addr := a[0].(*value)
+			mu := (*addr).(structure)[1].(iface).v
+			if i.sched == nil || !i.sched.enabled || i.path == nil {
+				panic(abort{kind: "deadlock", msg: "Cond.Wait (single thread)"})
+			}
+			gen := i.counterOf(addr)
+			my := *gen
+			i.sched.unlock(i, mu, true)
+			i.sched.block(i, func() bool { return *gen == my }, "Cond.Wait")
+			i.sched.cur.vc.join(i.sched.wgvc[addr])
+			i.sched.lock(i, mu, true)
+			return nil
+		},
+		"(*sync.Cond).Broadcast": condWake,
+		"(*sync.Cond).Signal":    condWake,
 		"(*sync.WaitGroup).Add": func(fr *frame, a []value) value {
 			c := fr.i.counterOf(a[0])
 			d := int(asInt64(a[1]))
